@@ -460,14 +460,20 @@ def get_model_parser(top_rule, comments_model, **kwargs):
 
                 # Transform parse tree to model. Skip root node which
                 # represents the whole file ending in EOF.
-                model = parse_tree_to_objgraph(
-                    self,
-                    self.parse_tree[0],
-                    file_name=file_name,
-                    pre_ref_resolution_callback=pre_ref_resolution_callback,
-                    is_main_model=is_main_model,
-                    encoding=encoding,
-                )
+                if is_main_model:
+                    _loads_in_progress.append([])
+                try:
+                    model = parse_tree_to_objgraph(
+                        self,
+                        self.parse_tree[0],
+                        file_name=file_name,
+                        pre_ref_resolution_callback=pre_ref_resolution_callback,
+                        is_main_model=is_main_model,
+                        encoding=encoding,
+                    )
+                finally:
+                    if is_main_model:
+                        _loads_in_progress.pop()
 
                 if not hasattr(model, "_tx_parser"):
                     # The root rule yielded a plain Python value (e.g. an
@@ -1033,10 +1039,14 @@ def parse_tree_to_objgraph(
         if is_main_model:
             models = get_included_models(model)
             try:
-                # filter out all models w/o resolver:
-                models = list(
-                    filter(lambda x: hasattr(x, "_tx_reference_resolver"), models)
-                )
+                # filter out all models w/o resolver, and the unfinished
+                # models of a load this one is nested in:
+                enclosing = _models_of_enclosing_loads()
+                models = [
+                    x
+                    for x in models
+                    if hasattr(x, "_tx_reference_resolver") and id(x) not in enclosing
+                ]
 
                 resolved_count = 1
                 unresolved_count = 1
@@ -1124,6 +1134,22 @@ def parse_tree_to_objgraph(
     return model
 
 
+# The models whose construction was started during each main load that is in
+# progress: a load can be started from inside a callback of another load
+# (a scope provider or a processor loading a library file), and with a shared
+# repository the nested load sees the unfinished models of the enclosing one.
+_loads_in_progress = []
+
+
+def _models_of_enclosing_loads():
+    """
+    Ids of the unfinished models that belong to the loads enclosing the
+    innermost load in progress. They are not the innermost load's to resolve,
+    finish or remove.
+    """
+    return {id(m) for load in _loads_in_progress[:-1] for m in load}
+
+
 def _start_model_construction(model):
     """
     Start model construction (internal design: use
@@ -1133,6 +1159,8 @@ def _start_model_construction(model):
     """
     assert not hasattr(model, "_tx_reference_resolver")
     model._tx_reference_resolver = None
+    if _loads_in_progress:
+        _loads_in_progress[-1].append(model)
 
 
 def _end_model_construction(model):
@@ -1193,9 +1221,12 @@ def _remove_all_affected_models_in_construction(model):
     See: _start_model_construction
     """
     all_affected_models = get_included_models(model)
-    models_to_be_removed = list(
-        filter(lambda x: hasattr(x, "_tx_reference_resolver"), all_affected_models)
-    )
+    enclosing = _models_of_enclosing_loads()
+    models_to_be_removed = [
+        x
+        for x in all_affected_models
+        if hasattr(x, "_tx_reference_resolver") and id(x) not in enclosing
+    ]
     remove_models_from_repositories(all_affected_models, models_to_be_removed)
     _discard_user_class_state(models_to_be_removed)
 
